@@ -2,6 +2,8 @@ import KitModel.Go.Prelude
 import KitModel.CryptoGlue
 import KitModel.Crypto
 import KitModel.Crypto.Rsa
+import KitModel.Crypto.Ecdsa
+import KitModel.Crypto.Ed25519
 /-!
 Driver for property C03: `kitdrv C03` reads one op per line on stdin and answers one line per
 input line by running the executable model `Kit.CryptoGlue` instantiated with the Lean-native
@@ -19,6 +21,12 @@ Ops (bytes in hex, empty = empty):
   rsa op=dec15 n= d= ct= | op=decoaep n= d= hash= label= ct=                 → ok pt= | err decryption
   rsa op=enc15 n= e= pt= ps= | op=encoaep n= e= hash= label= pt= seed=       → ok ct=
       (Lean-native RFC 8017 over Nat, `Kit.Crypto.Rsa`; n, e, d big-endian hex; hash = 1|256|384|512)
+  ec op=verify bits=256|384|521 qx= qy= digest= sig=                         → ok valid=true|false
+  ec op=sign bits= d= k= digest=                                            → ok sig= (DER) | err
+  ec op=params bits=                                                        → ok p= b= gx= gy= n=
+      (Lean-native ECDSA over the NIST curves, `Kit.Crypto.Ecdsa`)
+  ed op=verify pk= msg= sig= → ok valid= | op=sign seed= msg= → ok sig= | op=public seed= → ok pk=
+      (Lean-native Ed25519, RFC 8032, `Kit.Crypto.Ed25519`)
 Errors: `err <class>`; panics of the Go code: `panic <why>`.
 `x=` is a cross-check of the hand-written parts of the model (RFC 3394, CBC, CBC-HMAC) against
 the independently written `Kit.Crypto.kwWrap / cbcEncrypt / cbcHmacSeal`: `agree`, `differ`, `na`.
@@ -252,6 +260,35 @@ def answer (l : Line) : String :=
             | none => "bad rsa line"
           else "bad rsa op"
     | _, _, _, _, _, _, _, _, _ => "bad rsa line"
+  | "ec" =>
+    let num (k : String) : Option Nat := (hexOr l k).map Kit.Crypto.os2ip
+    match l.get? "op", (l.nat? "bits").bind Kit.Crypto.curveOfBits with
+    | some op, some c =>
+      let nhex (x : Nat) : String := toHex (Kit.Crypto.i2osp ((Kit.Crypto.bitLen c.p + 7) / 8) x)
+      if op = "params" then s!"ok p={nhex c.p} b={nhex c.b} gx={nhex c.gx} gy={nhex c.gy} n={nhex c.n}"
+      else if op = "verify" then
+        match num "qx", num "qy", hexOr l "digest", hexOr l "sig" with
+        | some qx, some qy, some digest, some sig => s!"ok valid={Kit.Crypto.ecdsaVerify c qx qy digest sig}"
+        | _, _, _, _ => "bad ec line"
+      else if op = "sign" then
+        match num "d", num "k", hexOr l "digest" with
+        | some d, some k, some digest =>
+          match Kit.Crypto.ecdsaSign c d k digest with
+          | some sig => s!"ok sig={toHex sig}"
+          | none => "err sign"
+        | _, _, _ => "bad ec line"
+      else "bad ec op"
+    | _, _ => "bad ec line"
+  | "ed" =>
+    match l.get? "op", hexOr l "pk", hexOr l "seed", hexOr l "msg", hexOr l "sig" with
+    | some op, some pk, some seed, some msg, some sig =>
+      if op = "verify" then s!"ok valid={Kit.Crypto.Ed25519.verify pk msg sig}"
+      else if op = "sign" then
+        if seed.length = 32 then s!"ok sig={toHex (Kit.Crypto.Ed25519.sign seed msg)}" else "err seed"
+      else if op = "public" then
+        if seed.length = 32 then s!"ok pk={toHex (Kit.Crypto.Ed25519.publicKey seed)}" else "err seed"
+      else "bad ed op"
+    | _, _, _, _, _ => "bad ed line"
   | _ => "bad op"
 
 def main (_args : List String) : IO UInt32 := do
